@@ -64,10 +64,20 @@ def run(repo: Repo, ctx) -> None:
            'except those in `skip`', gen.loc,
            sample='for field, value in iter_fields(node): if field not in '
                   'skip: recurse')
-    txt = norm(rec.node)
-    ok = 'isinstance(value, qlast.Base)' in txt and \
-        'isinstance(value, (tuple, list))' in txt and txt.count(
-            'normalize(') >= 2
+    from .. import shapes as SH
+    vparam = SH.param(rec.node, 1)
+    arms = SH.isinstance_arms(rec.node, vparam) if vparam else []
+    base_arm = [a for names, a in arms if 'Base' in names]
+    seq_arm = [a for names, a in arms if names & {'tuple', 'list'}]
+    if not arms:
+        raise AnalysisError('C03.R2: _normalize_recursively no longer '
+                            'dispatches on isinstance of its value')
+    ok = bool(base_arm) and any(
+        c.args and norm(c.args[0]) == vparam
+        for c in SH.calls_in(base_arm[0].body, 'normalize')) and \
+        bool(seq_arm) and any(
+            SH.calls_in(l.body, 'normalize')
+            for l in SH.loops_over(seq_arm[0].body, vparam))
     ctx.ob('C03.R2', '_normalize_recursively:nodes-and-lists', ok,
            'child nodes and lists of child nodes are not both normalised',
            rec.loc, sample='Base -> normalize; list/tuple -> each element')
